@@ -22,6 +22,9 @@ type propC01 struct {
 	types  []int
 	sizes  []int
 	nSweep int
+	nValid int
+	c12    *propC12
+	c13    *propC13
 	count  int
 }
 
@@ -31,7 +34,7 @@ func (p *propC01) ID() string     { return "C01" }
 func (p *propC01) Engine() string { return "rx" }
 func (p *propC01) Level() string  { return "exploration" }
 func (p *propC01) Rule() string {
-	return "two families. mutation: a valid stream (corpus prefix <= 8 KiB re-framed, or model-built) with 1-8 structure-aware byte mutations (definition triples, field counts, arch byte, global number, record header bits, developer descriptors, header bytes, data size), CRCs re-computed half of the time, fed to all six entry points under a seeded read plan incl. stutters, EOF-with-data and a random tail; " +
+	return "three families. valid: unmutated streams of the C12 / C13 / C18 / C02 generators (time rules, local types, components, mixed) through all six entry points. mutation: a valid stream (corpus prefix <= 8 KiB re-framed, or model-built) with 1-8 structure-aware byte mutations (definition triples, field counts, arch byte, global number, record header bits, developer descriptors, header bytes, data size), CRCs re-computed half of the time, fed to all six entry points under a seeded read plan incl. stutters, EOF-with-data and a random tail; " +
 		"sweep (workload enumeration): file_id + one definition of one field (every profile (message, field) + 3 unlisted field numbers per message + unknown messages) x base-type bytes x sizes x both byte orders x 5 data patterns, decoded with and without logger/unknown options. " +
 		"key = mutation: (entry point, mutation kinds, plan class, outcome class); sweep: (message, field known?, type byte, size, order, outcome); non-trivial when parsing got past the header"
 }
@@ -128,8 +131,53 @@ func (p *propC01) Prepare(seed uint64, tier string) int {
 	if sweep {
 		p.nSweep = len(p.cases) * len(p.types) * len(p.sizes) * 2 * 5
 	}
-	p.count = p.nMut + p.nSweep
+	// unmutated streams of the other properties' generators (time rules, local
+	// types, components, long runs): no entry point may panic or hang on them either
+	p.nValid = 30000
+	if base == "thorough" {
+		p.nValid = 1000000
+	}
+	if base == "replay" {
+		p.nValid = 0
+	}
+	p.c12, p.c13 = &propC12{}, &propC13{}
+	p.c12.Prepare(seed, "quick")
+	p.c13.Prepare(seed, "quick")
+	p.count = p.nMut + p.nSweep + p.nValid
 	return p.count
+}
+
+func (p *propC01) genValid(i int) *Scenario {
+	r := NewRng(p.seed, "C01/valid", i)
+	var rs *RecStream
+	switch i % 4 {
+	case 0:
+		if sc := p.c12.Gen(i); sc != nil && len(sc.Media) > 0 {
+			rs = sc.Media[0].Records
+		}
+	case 1:
+		if sc := p.c13.Gen(i); sc != nil && len(sc.Media) > 0 {
+			rs = sc.Media[0].Records
+		}
+	case 2:
+		h := c18Hosts[r.Intn(len(c18Hosts))]
+		rs = genComponentStream(r, h.ft, h.mn)
+	}
+	if rs == nil {
+		ft := supportedFileTypes[r.Intn(len(supportedFileTypes))]
+		rs = genStream(r, StreamOpts{FT: ft, NData: r.Range(1, 40), Arch: 2, Unknown: true, Dev: true, Compressed: true, Unhosted: true, Narrow: true, Accum: true, UTF8: r.Bool(), Hdr14: r.Bool(), BigArr: true})
+	}
+	sc := &Scenario{V: 1, Property: "C01", Engine: "rx", Family: "valid", Seed: p.seed, Index: p.nMut + p.nSweep + i,
+		Media: []Medium{{ID: "m0", Records: rs}}, Params: map[string]string{"source": []string{"C12", "C13", "C18", "C02"}[i%4]}}
+	plan := genPlan(r, true, true)
+	for k, c := range c01Calls {
+		t := Task{ID: k, Call: c, In: "m0", Read: plan}
+		if r.Chance(1, 4) {
+			t.Opts = []string{"logger", "unknownFields", "unknownMessages"}
+		}
+		sc.Tasks = append(sc.Tasks, t)
+	}
+	return sc
 }
 
 var c01Calls = []string{"Decode", "DecodeChained", "CheckIntegrity", "CheckIntegrityHeader", "DecodeHeader", "DecodeHeaderAndFileID"}
@@ -137,6 +185,9 @@ var c01Calls = []string{"Decode", "DecodeChained", "CheckIntegrity", "CheckInteg
 func (p *propC01) Gen(idx int) *Scenario {
 	if idx < p.nMut {
 		return p.genMutation(idx)
+	}
+	if idx >= p.nMut+p.nSweep {
+		return p.genValid(idx - p.nMut - p.nSweep)
 	}
 	return p.genSweep(idx - p.nMut)
 }
@@ -460,7 +511,7 @@ func (p *propC01) Check(sc *Scenario, st *Stats) []Violation {
 				outcome = "err:" + r.ErrClass
 			default:
 				st.Probe("decode ok")
-				d := sc.Media[0].Records.Ops[2].Def
+				d := sc.Media[0].Records.Ops[len(sc.Media[0].Records.Ops)-2].Def
 				if prof.Known(d.Global) {
 					st.Probe("definition accepted, message known")
 				} else {
